@@ -20,6 +20,8 @@ import (
 	"github.com/sarchlab/mgpusim/v4/amd/timing/wavefront"
 )
 
+// (JSON event kinds flush / restart: the pipeline flush and the end of the replay after a restart)
+//
 // Ev is one step of the scheduler's environment, or a check point, in the
 // order in which the code executes them inside a compute-unit cycle:
 // unit completions, the EvaluateInternalInst pass, issues, memory responses,
@@ -52,6 +54,7 @@ type TimingObs struct {
 	Out    []uint32 `json:"out,omitempty"`
 	Cycles int      `json:"cycles"`
 	Refused int     `json:"refused"` // Send attempts of completion messages that the dispatch port refused
+	Flushes int     `json:"flushes"` // pipeline flushes that took place
 }
 
 // DoneRec is one WGCompletionMsg: work-group and the cycle it was sent in.
@@ -119,6 +122,15 @@ type recorder struct {
 	mapReq  map[string]int // MapWGReq ID -> work-group index
 	prevSt  []wavefront.WfState
 	prevIn  []*wavefront.Inst
+	prevPC  []uint64
+	wasPaused  bool
+	firstMap   int // cycle in which the first work-group arrived (-1: none yet)
+	flushes    []int
+	nextFlush  int
+	flushBusy  bool
+	ctrl       *ctrlPort
+	engine     sim.Engine
+	flushCount int
 	instOf  map[string][2]int // memory instruction ID -> wavefront, kind (0 scalar, 1 flat)
 	issues  []Ev
 	rsps    []Ev
@@ -204,6 +216,7 @@ func (r *recorder) learn(wf *wavefront.Wavefront) {
 		r.wfs = append(r.wfs, w)
 		r.prevSt = append(r.prevSt, wavefront.WfReady)
 		r.prevIn = append(r.prevIn, nil)
+		r.prevPC = append(r.prevPC, w.PC())
 		r.obs.WgOf = append(r.obs.WgOf, wg.IDX)
 		r.obs.IdxOf = append(r.obs.IdxOf, i)
 	}
@@ -239,9 +252,10 @@ func (r *recorder) Func(ctx sim.HookCtx) {
 	// instruction and is not running that same instruction any more
 	for i := 0; i < known; i++ {
 		wf := r.wfs[i]
+		// (a pipeline flush also makes a Running wavefront Ready, but without moving its PC)
 		if r.prevSt[i] == wavefront.WfRunning && r.prevIn[i] != nil &&
 			r.prevIn[i].ExeUnit != insts.ExeUnitSpecial &&
-			(wf.State != wavefront.WfRunning || wf.DynamicInst() != r.prevIn[i]) {
+			(wf.PC() != r.prevPC[i] || wf.DynamicInst() != r.prevIn[i]) {
 			evs = append(evs, Ev{E: "done", W: i})
 		}
 	}
@@ -254,7 +268,7 @@ func (r *recorder) Func(ctx sim.HookCtx) {
 		wf := r.wfs[i]
 		busy := func(s wavefront.WfState) bool { return s == wavefront.WfRunning || s == wavefront.WfAtBarrier }
 		if busy(r.prevSt[i]) && r.prevIn[i] != nil && r.prevIn[i].ExeUnit == insts.ExeUnitSpecial &&
-			(!busy(wf.State) || wf.DynamicInst() != r.prevIn[i]) {
+			(wf.PC() != r.prevPC[i] || wf.State == wavefront.WfCompleted || wf.DynamicInst() != r.prevIn[i]) {
 			k, a, b := kindOf(r.prevIn[i].Inst)
 			evs = append(evs, Ev{E: "sdone", W: i, K: k, A: a, B: b})
 		}
@@ -262,7 +276,20 @@ func (r *recorder) Func(ctx sim.HookCtx) {
 	evs = append(evs, r.issues...)
 	evs = append(evs, r.rsps...)
 	evs = append(evs, r.pendingMaps...)
+	if len(r.pendingMaps) > 0 && r.firstMap < 0 {
+		r.firstMap = r.cycle
+	}
 	r.issues, r.rsps, r.pendingMaps, r.sends = nil, nil, nil, 0
+	nowPaused := r.cu.VerifSchedState().Paused
+	if nowPaused && !r.wasPaused {
+		evs = append(evs, Ev{E: "flush"}) // doFlush runs at the end of the cycle
+		r.flushCount++
+	}
+	if !nowPaused && r.wasPaused {
+		evs = append(evs, Ev{E: "restart"})
+	}
+	r.wasPaused = nowPaused
+	r.maybeFlush()
 	// a memory instruction is really finished when none of its transactions
 	// is in flight any more (monitor only)
 	if len(r.pendFin) > 0 {
@@ -295,6 +322,7 @@ func (r *recorder) Func(ctx sim.HookCtx) {
 		chk.Vc = append(chk.Vc, wf.OutstandingVectorMemAccess)
 		r.prevSt[i] = wf.State
 		r.prevIn[i] = wf.DynamicInst()
+		r.prevPC[i] = wf.PC()
 	}
 	ss := r.cu.VerifSchedState()
 	for _, wf := range ss.InternalExecuting {
@@ -313,6 +341,89 @@ func (r *recorder) Func(ctx sim.HookCtx) {
 		r.obs.Evs = append(r.obs.Evs, Ev{E: "t", T: r.cycle})
 	}
 	r.obs.Evs = append(r.obs.Evs, evs...)
+}
+
+// ---- the harness as command processor: pipeline flush and restart
+
+// ctrlPort stands in for the CU's control port: it feeds the requests of the
+// harness to the CU and keeps the CU's answers to them away from the real
+// command processor; everything else goes through the real port.
+type ctrlPort struct {
+	sim.Port
+	inject []sim.Msg
+	onRsp  func(sim.Msg)
+}
+
+const verifCP = sim.RemotePort("VerifCP")
+
+func (p *ctrlPort) RetrieveIncoming() sim.Msg {
+	if len(p.inject) > 0 {
+		m := p.inject[0]
+		p.inject = p.inject[1:]
+		return m
+	}
+	return p.Port.RetrieveIncoming()
+}
+
+func (p *ctrlPort) Send(m sim.Msg) *sim.SendError {
+	if m.Meta().Dst == verifCP {
+		p.onRsp(m)
+		return nil
+	}
+	return p.Port.Send(m)
+}
+
+type restartEvent struct{ *sim.EventBase }
+
+// Handle delivers the restart request some cycles after the flush response.
+func (r *recorder) Handle(e sim.Event) error {
+	if r.stopped {
+		return nil
+	}
+	r.ctrl.inject = append(r.ctrl.inject, protocol.CUPipelineRestartReqBuilder{}.
+		WithSrc(verifCP).WithDst(r.ctrl.Port.AsRemote()).Build())
+	r.cu.TickLater()
+	return nil
+}
+
+func (r *recorder) onCtrlRsp(m sim.Msg) {
+	switch m.(type) {
+	case *protocol.CUPipelineFlushRsp:
+		d := 3 + (r.flushes[r.nextFlush]*7)%23
+		t := r.cu.Freq.NCyclesLater(d, r.engine.CurrentTime())
+		r.engine.Schedule(restartEvent{sim.NewEventBase(t, r)})
+	case *protocol.CUPipelineRestartRsp:
+		r.nextFlush++
+		r.flushBusy = false
+	}
+}
+
+// maybeFlush sends the next flush request when its cycle has come; it prefers
+// a moment at which some wavefront has memory accesses outstanding.
+func (r *recorder) maybeFlush() {
+	if r.ctrl == nil || r.flushBusy || r.nextFlush >= len(r.flushes) || r.firstMap < 0 || r.wasPaused {
+		return
+	}
+	due := r.firstMap + r.flushes[r.nextFlush]
+	if r.cycle < due {
+		return
+	}
+	inFlight, alive := false, false
+	for _, wf := range r.wfs {
+		if wf.State != wavefront.WfCompleted {
+			alive = true
+		}
+		if wf.OutstandingScalarMemAccess > 0 || wf.OutstandingVectorMemAccess > 0 {
+			inFlight = true
+		}
+	}
+	if !alive || (!inFlight && r.cycle < due+120) {
+		return
+	}
+	r.flushBusy = true
+	r.ctrl.inject = append(r.ctrl.inject, protocol.CUPipelineFlushReqBuilder{}.
+		WithSrc(verifCP).WithDst(r.ctrl.Port.AsRemote()).Build())
+	r.cu.TickLater()
 }
 
 func sameInts(a, b []int) bool {
@@ -404,7 +515,12 @@ func runTiming(c Case, ws []uint32, timeoutMs int) *TimingObs {
 		return obs
 	}
 	r := &recorder{cu: theCU, ids: map[*wavefront.Wavefront]int{}, wgIdx: map[*wavefront.WorkGroup]int{},
-		mapReq: map[string]int{}, instOf: map[string][2]int{}, pendFin: map[string][2]int{}, obs: obs}
+		mapReq: map[string]int{}, instOf: map[string][2]int{}, pendFin: map[string][2]int{}, obs: obs,
+		firstMap: -1, flushes: c.Flush, engine: s.GetEngine()}
+	if len(c.Flush) > 0 {
+		r.ctrl = &ctrlPort{Port: theCU.ToCP, onRsp: r.onCtrlRsp}
+		theCU.ToCP = r.ctrl
+	}
 	if c.Pen > 0 {
 		theCU.VerifSetMaxCoalescingPenalty(c.Pen)
 	}
@@ -419,6 +535,7 @@ func runTiming(c Case, ws []uint32, timeoutMs int) *TimingObs {
 	d.Run()
 	ok, out := launch(d, c, ws, timeoutMs, c.GPU == "mi300a", func() { r.stopped = true })
 	obs.Cycles = r.cycle
+	obs.Flushes = r.flushCount
 	if !ok {
 		r.stopped = true
 		obs.Result = "hang"
@@ -447,6 +564,37 @@ type EmuObs struct {
 	Evs    []EmuEv  `json:"evs"`
 	NInst  int      `json:"ninst"`
 	Out    []uint32 `json:"out,omitempty"`
+	// completion reporting: work-group (IDX) of every MapWGReq ID listed in a
+	// WGCompletionMsg that left a compute unit, in order; sizes of the messages
+	Done    []int `json:"done"`
+	Batches []int `json:"batches"`
+	Refused int   `json:"refused"`
+}
+
+// emuPortHook watches the dispatcher port of an emulation compute unit.
+type emuPortHook struct {
+	obs   *EmuObs
+	reqWG map[string]int
+}
+
+func (h emuPortHook) Func(ctx sim.HookCtx) {
+	switch m := ctx.Item.(type) {
+	case *protocol.MapWGReq:
+		if ctx.Pos == sim.HookPosPortMsgRecvd {
+			h.reqWG[m.ID] = m.WorkGroup.IDX
+		}
+	case *protocol.WGCompletionMsg:
+		if ctx.Pos == sim.HookPosPortMsgSend {
+			h.obs.Batches = append(h.obs.Batches, len(m.RspTo))
+			for _, id := range m.RspTo {
+				g, ok := h.reqWG[id]
+				if !ok {
+					g = -1
+				}
+				h.obs.Done = append(h.obs.Done, g)
+			}
+		}
+	}
 }
 
 type emuHook struct{ obs *EmuObs }
@@ -484,10 +632,18 @@ func runEmu(c Case, ws []uint32, timeoutMs int) *EmuObs {
 		a = arch.CDNA3
 	}
 	emusystem.MakeBuilder().WithSimulation(s).WithNumGPUs(1).WithArchitecture(a).Build()
-	obs := &EmuObs{Evs: []EmuEv{}}
+	obs := &EmuObs{Evs: []EmuEv{}, Done: []int{}, Batches: []int{}}
+	reqWG := map[string]int{}
 	for _, comp := range s.Components() {
 		if x, ok := comp.(*emu.ComputeUnit); ok {
 			x.AcceptHook(emuHook{obs})
+			x.ToDispatcher.AcceptHook(emuPortHook{obs, reqWG})
+			if c.Refuse > 0 {
+				// the emulation CU retries by itself one cycle later: no wake-up needed
+				tick := 0 // every attempt is its own cycle (the retry event comes one cycle later)
+				x.ToDispatcher = &refusingPort{Port: x.ToDispatcher, k: c.Refuse, tries: map[string]int{},
+					refused: &obs.Refused, wake: func() {}, cycle: func() int { tick++; return tick }, fullIn: -1}
+			}
 		}
 	}
 	d := s.GetComponentByName("Driver").(*driver.Driver)
